@@ -104,6 +104,8 @@ type G struct {
 	spinBlocked bool
 	spinCount   int    // visits on probation since the last active operation
 	lowPrio     bool   // on probation: runs only when nothing else can
+	starved     bool   // Options.Starve names this goroutine: it runs only when no other goroutine can ...
+	lastRun     int    // ... unless it has not run for Options.StarveSteps steps (step of its last operation)
 	lastSelKey  uint32 // visit key and clause of the last select that took a receive from a closed channel
 	lastSelCase int
 
@@ -212,6 +214,7 @@ func (e *Exec) newG(parent *G, site string) *G {
 		g.hash = 0x1234567
 	}
 	g.isEnv = !strings.Contains(site, "@repo")
+	g.starved = e.opts.Starve > 0 && g.id == e.opts.Starve
 	e.gs = push(e.gs, g)
 	return g
 }
@@ -343,20 +346,37 @@ func (e *Exec) pick(n int, kind int) int {
 	return idx
 }
 
+// starving tells whether g is the starved goroutine and still within its starvation window:
+// a real scheduler delays a goroutine arbitrarily but not for ever, and code that re-posts or
+// polls until another goroutine has moved (the gateways' "reschedule" of an early probe report)
+// would never terminate under unbounded starvation.
+func (e *Exec) starving(g *G) bool {
+	return g.starved && e.steps-g.lastRun < e.opts.StarveSteps
+}
+
 // candidates returns the runnable goroutines in canonical order: the current one first (if it
 // is the one yielding), then the run queue. Goroutines waiting for idleness are candidates only
 // when nothing else is.
 func (e *Exec) candidates(cur *G) []*G {
 	cands := make([]*G, 0, len(e.runq)+1)
-	if cur != nil && !cur.waitIdle && !cur.lowPrio {
+	if cur != nil && !cur.waitIdle && !cur.lowPrio && !e.starving(cur) {
 		cands = push(cands, cur)
 	}
 	for _, g := range e.runq {
-		if !g.waitIdle && !g.lowPrio {
+		if !g.waitIdle && !g.lowPrio && !e.starving(g) {
 			cands = push(cands, g)
 		}
 	}
 	if len(cands) == 0 {
+		// the starved goroutine (Options.Starve): only when every other goroutine is blocked
+		if cur != nil && cur.starved && !cur.waitIdle && !cur.lowPrio {
+			return push(cands, cur)
+		}
+		for _, g := range e.runq {
+			if g.starved && !g.waitIdle && !g.lowPrio {
+				return push(cands, g)
+			}
+		}
 		// goroutines on spin probation: one at a time, no choice among them
 		if cur != nil && cur.lowPrio {
 			return push(cands, cur)
@@ -401,6 +421,7 @@ func yield() *G {
 	}
 	g := e.cur
 	e.steps++
+	g.lastRun = e.steps
 	if e.opts.Trace {
 		e.traceOp(g)
 	}
@@ -757,8 +778,18 @@ type Options struct {
 	MaxExecs  int // 0 = no cap
 	Deadline  time.Time
 	Trace     bool // record an operation trace in the outcome (replay only)
-	SplitK    int  // intra-scenario sharding: number of jobs the first-level subtrees are dealt to
-	SplitIdx  int
+	// Starve > 0: the goroutine created as number Starve in the execution (creation order is
+	// deterministic) has the lowest priority for its whole life: it runs only while every other
+	// goroutine is blocked (or after StarveSteps steps without running). A second family of base schedules next to the FIFO default: a
+	// deviation budget of d around it reaches executions in which one goroutine is delayed
+	// arbitrarily long, which a small delay bound around FIFO cannot reach.
+	Starve int
+	// StarveSteps bounds one starvation window (default 400 scheduling steps): after that many
+	// steps without running, the starved goroutine is scheduled like any other until its next
+	// operation, then starved again (a real scheduler delays a goroutine arbitrarily, not for ever).
+	StarveSteps int
+	SplitK      int // intra-scenario sharding: number of jobs the first-level subtrees are dealt to
+	SplitIdx    int
 	// AfterRun is called after every complete execution; the strings it returns are recorded as
 	// violations of that execution (used by race mode to attribute detector reports).
 	AfterRun func(o *Outcome) []string
